@@ -155,11 +155,24 @@ def run(ctx):
     lines = open(trace).read().splitlines()
     random.Random(ctx.seed).shuffle(lines)          # events are independent: balance the TLC shards
     open(trace, "w").write("\n".join(lines) + "\n")
-    mism, n = ctx.validate_events("Trace_Derive", trace, max_findings=4)
+    # large traces are validated in pieces of <= 100k events (16 TLC shards each) to bound the JVM heaps
+    mism, n, step, first = [], 0, 100000, None
+    for j in range(0, len(lines), step):
+        piece = ctx.scratch + "/c17-%d.ndjson" % (j // step)
+        open(piece, "w").write("\n".join(lines[j:j + step]) + "\n")
+        mm, k = ctx.validate_events("Trace_Derive", piece, max_findings=4, stage="T:Trace_Derive/%d" % (j // step))
+        mism += mm
+        n += k
+        if first is None:
+            first = piece
+        else:
+            os.remove(piece)
+    trace = first
     ctx.cov["traces_validated_against_impl"] += 1
     ctx.cov["events"] = n
     for k in (3, len(lines) // 3, len(lines) // 2, len(lines) - 7):
         ctx.sample(json.loads(lines[k]))
+    del lines
     bugs = [m for m in mism if m["bad"][0] == "unknown event"]
     if bugs:
         raise vlib.Infra("Trace_Derive: driver/spec inconsistency: %s" % json.dumps(vlib._shorten(bugs[0]))[:1000])
